@@ -85,6 +85,7 @@ func NewClientWithLogger(
 		make(map[string]*executionEntry),
 		make(map[string]chan<- schema.Input),
 		sync.Mutex{},
+		sync.Mutex{},
 		false,
 		false,
 		ctx,
@@ -117,16 +118,21 @@ type client struct {
 	runningStepResultEntries         map[string]*executionEntry     // Run ID to results
 	runningStepEmittedSignalChannels map[string]chan<- schema.Input // Run ID to channel of signals emitted from steps
 	mutex                            sync.Mutex
-	readLoopRunning                  bool // To prevent duplicate loops across multiple step executions.
+	encoderMutex                     sync.Mutex // Serializes writes; separate from mutex, which the read loop needs.
+	readLoopRunning                  bool       // To prevent duplicate loops across multiple step executions.
 	done                             bool
 	context                          context.Context
 	cancelFunc                       context.CancelFunc
 	wg                               sync.WaitGroup // For the read loop.
 }
 
+// sendCBOR writes one message. Writes are serialized by their own mutex: a write may block for as long as the
+// plugin does not read (an unbuffered or full pipe), and holding the state mutex meanwhile would stop the read loop,
+// which needs it for every message - while the plugin may not be reading precisely because it is blocked writing to
+// us.
 func (c *client) sendCBOR(message any) error {
-	c.mutex.Lock()
-	defer c.mutex.Unlock()
+	c.encoderMutex.Lock()
+	defer c.encoderMutex.Unlock()
 	return c.encoder.Encode(message)
 }
 
